@@ -271,7 +271,7 @@ func c16run(env *core.Env, idx int) core.CaseResult {
 		mount bool
 	}
 	var want []child
-	siblingOfMount := ""
+	siblingOfMount, caseTwinOfMount := "", ""
 	for i := 0; i < cs.N; i++ {
 		c := child{name: fmt.Sprintf("n%04d", (i*7919)%10000)}
 		switch i % 4 {
@@ -303,6 +303,11 @@ func c16run(env *core.Env, idx int) core.CaseResult {
 			want = append(want, sib)
 			items = append(items, treeItem{Path: prefix + sib.name, Dir: true, Perm: 0o755}, treeItem{Path: prefix + sib.name + "/in-sibling", Perm: 0o644, Data: "s"})
 			siblingOfMount = sib.name
+			// ... and one whose name differs from the mount point's only in the case of its letters
+			up := child{name: strings.ToUpper(c.name), dir: true}
+			want = append(want, up)
+			items = append(items, treeItem{Path: prefix + up.name, Dir: true, Perm: 0o755}, treeItem{Path: prefix + up.name + "/in-upper", Perm: 0o644, Data: "u"})
+			caseTwinOfMount = up.name
 			break
 		}
 	}
@@ -384,6 +389,23 @@ func c16run(env *core.Env, idx int) core.CaseResult {
 			res.Count("returned_listings_overwritten", 1)
 		}
 	})
+	if caseTwinOfMount != "" {
+		inner, ierr := hackpadfs.ReadDir(sub.fs, prefix+caseTwinOfMount)
+		if ierr != nil || len(inner) != 1 || inner[0].Name() != "in-upper" {
+			res.Violate(fmt.Sprintf("C16|%s|byname|%s|case-twin-of-mountpoint", cs.Subject, c16sizeClass(len(want))), fmt.Sprintf("[%s] listing %q, an ordinary directory whose name is the neighbouring mount point's in capitals, returned %s (err %v); it holds exactly in-upper", cs.Subject, prefix+caseTwinOfMount, fsx.EntriesString(inner), ierr), cs)
+		}
+	}
+	if cs.Subject == "os" && cs.Dir != "." {
+		// a symbolic link to the listed directory: listing the link by name lists the directory
+		if err := hackpadfs.Symlink(sub.fs, cs.Dir, "zlink-to-dir"); err == nil {
+			direct, derr := hackpadfs.ReadDir(sub.fs, cs.Dir)
+			via, verr := hackpadfs.ReadDir(sub.fs, "zlink-to-dir")
+			res.Count("listings_through_a_link", 1)
+			if (derr == nil) != (verr == nil) || fsx.EntriesString(direct) != fsx.EntriesString(via) {
+				res.Violate(fmt.Sprintf("C16|os|byname|%s|through-link", c16sizeClass(len(want))), fmt.Sprintf("listing %q gives %d entries (err %v); listing zlink-to-dir, a symbolic link to it, gives %d (err %v)", cs.Dir, len(direct), derr, len(via), verr), cs)
+			}
+		}
+	}
 	// (a) by-name listing
 	var entries []hackpadfs.DirEntry
 	var lerr error
@@ -419,6 +441,13 @@ func c16run(env *core.Env, idx int) core.CaseResult {
 					inner, ierr := hackpadfs.ReadDir(sub.fs, prefix+e.Name())
 					if ierr != nil || len(inner) != 1 || inner[0].Name() != "in-mount" {
 						bad("byname", "mountpoint-content", fmt.Sprintf("listing the mount point %q returned %s (err %v), the mounted file system holds exactly in-mount", e.Name(), fsx.EntriesString(inner), ierr))
+					} else {
+						// ... and what the listing names is there, what the mount hides is not (both names were looked up before the mount was added)
+						_, serr := hackpadfs.Stat(sub.fs, prefix+e.Name()+"/in-mount")
+						_, herr := hackpadfs.Stat(sub.fs, prefix+e.Name()+"/hidden-below")
+						if serr != nil || herr == nil {
+							bad("byname", "mountpoint-content", fmt.Sprintf("the mount point %q lists in-mount, but Stat of it says %v, and Stat of hidden-below (a file of the directory the mount hides) says %v", e.Name(), serr, herr))
+						}
 					}
 				}
 				continue
